@@ -20,6 +20,7 @@ ANNOT = {
     "list_str": ("List[str]", "field(default_factory=list)"), "list_int": ("List[int]", "field(default_factory=list)"),
     "set_str": ("Set[str]", "field(default_factory=set)"), "set_int": ("Set[int]", "field(default_factory=set)"),
     "private": ("int", "0"),
+    "list_uuid": ("List[uuid.UUID]", "field(default_factory=list)"), "json_list_opt_int": ("List[Optional[int]]", "field(default_factory=list)"),
 }
 
 
@@ -41,6 +42,9 @@ def gen_model(rng, modname, profile="orm"):
                 kind = rng.choice(SCALARS)
             elif r < 0.48:
                 kind = rng.choice(JSONS)
+                if profile in ("orm", "big") and rng.random() < 0.3:
+                    # one JSON column as well: builtin-like elements from another module, elements that may be missing
+                    kind = rng.choice(["list_uuid", "json_list_opt_int"])
             elif r < 0.55:
                 kind = "private"
             elif r < 0.60 and profile in ("diagram", "orm", "big"):
@@ -180,7 +184,7 @@ ENUM_MODULE_SOURCE = "from enum import Enum\n\n\nclass Color(Enum):\n    R = 'r'
 def render(spec, postponed=True):
     lines = (["from __future__ import annotations"] if postponed else []) + ["from dataclasses import dataclass, field",
              "from typing_extensions import List, Optional, Set, Tuple, Type, Union", "from enum import Enum",
-             "from datetime import datetime", "", "", "class Color(Enum):", "    R = 'r'", "    G = 'g'", "    B = 'b'", "", ""]
+             "from datetime import datetime", "import uuid", "", "", "class Color(Enum):", "    R = 'r'", "    G = 'g'", "    B = 'b'", "", ""]
     if spec.get("enum_module"):
         # the enum lives in a module of its own that holds no mapped class (ENUM_MODULE_SOURCE, written next to the model)
         lines = lines[:lines.index("class Color(Enum):")] + [f"from {spec['module']}_enum import Color", "", ""]
@@ -257,7 +261,7 @@ def render_split(spec):
         names_other = [n for n, sd in side.items() if sd == other]
         lines = ["from __future__ import annotations", "from dataclasses import dataclass, field",
                  "from typing_extensions import List, Optional, Set, Tuple, Type, Union, TYPE_CHECKING", "from enum import Enum",
-                 "from datetime import datetime", f"from {spec['module']}_enum import Color", ""]
+                 "from datetime import datetime", "import uuid", f"from {spec['module']}_enum import Color", ""]
         if names_other:
             lines += ["if TYPE_CHECKING:", f"    from {spec['module']}_{other} import " + ", ".join(names_other), ""]
         emitted = []
